@@ -87,6 +87,14 @@ def directed_cases(seed: int, tier: str) -> typing.List[dict]:
             {"op": "chmod", "pick": -1, "mode": 0o111},
             {"op": "generate", "opts": {"file_mode": 0o644}},
         ],
+        "scratch-named-neighbours-then-no-overwrite": [
+            {"op": "plant", "pick_future": 0, "suffix": ".tmp", "content": "foreign\n", "mode": 0o444},
+            {"op": "plant", "pick_future": 1, "suffix": ".bak", "content": "foreign\n", "mode": 0o644},
+            {"op": "plant", "pick_future": 2, "suffix": "~", "content": "", "mode": 0o400},
+            {"op": "generate", "opts": {"no_overwrite": True}},
+            {"op": "generate", "opts": {"file_mode": 0o640}},
+            {"op": "generate", "opts": {"no_overwrite": True, "gen_support": "never"}},
+        ],
         "foreign-then-no-overwrite": [
             {"op": "plant", "pick_future": 0, "content": "foreign\n", "mode": 0o644},
             {"op": "generate", "opts": {"no_overwrite": True}},
@@ -317,8 +325,11 @@ def run_case(case: dict, ctx: dict) -> dict:
                 templates.append({"op": "chmod", "pick": ro.below(1000), "mode": ro.choice([0o444, 0o400, 0o000, 0o644, 0o222, 0o555, 0o3444, 0o2664])})
             elif kind == "plant":
                 t = {"op": "plant", "content": ro.choice(["", "foreign\n", "x" * 5000]), "mode": ro.choice([0o644, 0o444, 0o600, 0o400])}
-                if ro.chance(2, 3):
+                if ro.chance(1, 2):
                     t["pick_future"] = ro.below(1000)
+                    if ro.chance(1, 3):
+                        # a foreign file NEXT TO a generated one, named as scratch and backup files usually are
+                        t["suffix"] = ro.choice([".tmp", ".bak", ".orig", "~", ".new", ".swp", ".part", ".lock"])
                 else:
                     t["path"] = ro.choice(["foreign_%d.txt" % ro.below(3), "extra/dir/foreign.h"])
                 templates.append(t)
@@ -596,12 +607,14 @@ def run_case(case: dict, ctx: dict) -> dict:
             if path is None:
                 if "pick_future" in op:
                     # a path some generate of this case produces (seen so far), else a path that exists
-                    pool = last_ref_files or existing
-                    if not pool and base is not None:
-                        ref = nnvg.reference_run(world, dict(base), ref_cache, umask=world_knobs["umask"])
+                    if not last_ref_files and base is not None:
+                        ref = nnvg.reference_run(world, {k: v for k, v in base.items() if k != "alt_roots"}, ref_cache, umask=world_knobs["umask"])
                         evaluations += 1
-                        pool = sorted(ref["files"]) if ref["ok"] else []
+                        last_ref_files = sorted(ref["files"]) if ref["ok"] else []
+                    pool = last_ref_files or existing
                     path = _resolve_pick(op.pop("pick_future"), pool)
+                    if path is not None and op.get("suffix"):
+                        path = path + op.pop("suffix")
                 else:
                     path = _resolve_pick(op.pop("pick"), existing)
             op.pop("pick", None)
